@@ -2,6 +2,7 @@
 package c07
 
 import (
+	"bytes"
 	"fmt"
 	"log/slog"
 	"os"
@@ -330,3 +331,38 @@ var propStream = stats.Prop(R, "stream", genStream, checkStream)
 func TestStream(t *testing.T) { rapid.Check(t, propStream) }
 
 func TestReplay(t *testing.T) { R.Replay(t) }
+
+// FuzzTypedFrame: bytes -> (type selector, payload) framed with a good CRC, so the
+// fuzzer reaches the decoders instead of dying at the CRC gate.
+func FuzzTypedFrame(f *testing.F) {
+	f.Add(uint8(0), []byte{0x43, 0x50, 0, 0, 0, 0, 0, 0, 0, 0, 0, 0, 0, 0, 0, 0, 0, 0, 0, 0, 0, 0})
+	f.Add(uint8(3), bytes.Repeat([]byte{0xFF}, 40))
+	f.Add(uint8(1), []byte{1})
+	f.Fuzz(func(t *testing.T, sel uint8, payload []byte) {
+		if len(payload) == 0 || len(payload) > 1023 {
+			return
+		}
+		mt := gen.Decodable[int(sel)%len(gen.Decodable)]
+		p := enc.PayloadWithType(mt, len(payload), payload)
+		o := &stats.Obs{}
+		if err := checkFrame(FrameCase{Frame: enc.Frame(p), Class: "fuzz"}, o); err != nil {
+			t.Fatalf("C07 violated: %v", err)
+		}
+	})
+}
+
+// FuzzRawStream: arbitrary bytes through the stream handler and the display of every message.
+func FuzzRawStream(f *testing.F) {
+	f.Add([]byte{0xd3, 0x00, 0x02, 0x43, 0x50, 0x06, 0xa2, 0x7e})
+	f.Add([]byte("$GPGGA,1,2*00\r\n\xd3\x00\x00"))
+	f.Fuzz(func(t *testing.T, b []byte) {
+		if len(b) > 4096 {
+			return
+		}
+		o := &stats.Obs{}
+		c := StreamCase{Stream: gen.Stream{Segs: []gen.Segment{{Kind: "raw", Data: b}}}, InCap: 64, OutCap: 8}
+		if err := checkStream(c, o); err != nil {
+			t.Fatalf("C07 violated: %v", err)
+		}
+	})
+}
